@@ -24,6 +24,11 @@ def gen_config(rng, escape=None, kicks=None, ntout=None, cls=None):
     nbins = [rng.choice([1, 2, 3, 5, 8, 12]) for _ in range(nseg)] if nb == "list" else rng.choice([nseg * 2, 10, 24])
     if not isinstance(nbins, int):
         nbins[-1] = max(nbins[-1], 4)
+    if rng.random() < 0.2 and hi >= 50.0:
+        # dict form: stellar counts as before, remnant bins requested explicitly (NS entry optional)
+        nbins = dict(MS=nbins, WD=rng.choice([3, 6, 10]), BH=rng.choice([4, 8, 12]))
+        if rng.random() < 0.5:
+            nbins["NS"] = 1
     meth = rng.choice(BH_METHODS)
     feh = rng.choice([-2.5, -2.0, -1.5, -1.0, -0.5, 0.0, 0.3, 0.5, rng.uniform(-2.5, 0.5)])
     nt = ntout or rng.choice([1, 1, 2, 3, 4])
